@@ -57,6 +57,11 @@ func runHistories(c *core.Ctx, which string) {
 				cases = append(cases, id)
 			}
 		}
+		for _, id := range []string{"named/long-lived/subtarget-then-all", "named/long-lived/revert", "named/long-lived/revert-constant"} {
+			if c.Want(id) {
+				cases = append(cases, id)
+			}
+		}
 	}
 	if which == "C02" && c.Want("named/shared-source-reverted-after-sibling-build") {
 		cases = append([]string{"named/shared-source-reverted-after-sibling-build"}, cases...)
@@ -169,12 +174,95 @@ def t(self):
 	}
 }
 
+// c01LongLived: deterministic histories on one long-lived Project (Reload() before every build, nil options - the `dawn
+// watch` path): a dependency rebuilt alone between two builds of its dependent; an input edited and edited back.
+func c01LongLived(c *core.Ctx, id string) {
+	dir := filepath.Join(c.Scratch, fmt.Sprintf("c01l-%d", os.Getpid()))
+	os.RemoveAll(dir)
+	defer os.RemoveAll(dir)
+	s := pj.NewSession(dir)
+	os.WriteFile(filepath.Join(s.Root, "dawn.toml"), []byte("name = \"n\"\n"), 0o644)
+	write := func(k string) {
+		os.WriteFile(filepath.Join(s.Root, "BUILD.dawn"), []byte(fmt.Sprintf(`K = %s
+@target(sources=["in.txt"], generates=["out/mid.txt"])
+def mid(self):
+    v.body("//:mid", [K], ["in.txt"], "out/mid.txt")
+@target(deps=[":mid"], generates=["out/top.txt"])
+def top(self):
+    v.body("//:top", [2], ["out/mid.txt"], "out/top.txt")
+`, k)), 0o644)
+	}
+	write("\"one\"")
+	in := filepath.Join(s.Root, "in.txt")
+	os.WriteFile(in, []byte("A\n"), 0o644)
+	lv := &pj.Live{}
+	var script []string
+	build := func(t string) []string {
+		from := s.LogLen()
+		res := lv.Build(pj.BuildReq{Root: s.Root, Target: t})
+		var ex []string
+		for _, le := range s.ReadLog(from) {
+			if le.Kind == "S" {
+				ex = append(ex, le.Label)
+			}
+		}
+		script = append(script, fmt.Sprintf("build %s -> executed %v %s%s", t, ex, res.LoadErr, res.RunErr))
+		return ex
+	}
+	expect := func(ex []string, want ...string) bool {
+		for _, w := range want {
+			if !contains2(ex, w) {
+				c.Violation(id, "", "stale", map[string]any{"history": script, "why": w + " did not re-execute although an input of it changed since its last execution; the build reported success"})
+				return false
+			}
+		}
+		return true
+	}
+	c.Eval(id)
+	c.Distinct(id)
+	if ex := build("//:top"); len(ex) != 2 {
+		c.Violation(id, "", "clean-build-fails", map[string]any{"history": script})
+		return
+	}
+	switch id {
+	case "named/long-lived/subtarget-then-all":
+		os.WriteFile(in, []byte("B\n"), 0o644)
+		script = append(script, "edit in.txt A -> B")
+		if !expect(build("//:mid"), "//:mid") {
+			return
+		}
+		expect(build("//:top"), "//:top")
+	case "named/long-lived/revert":
+		os.WriteFile(in, []byte("B\n"), 0o644)
+		script = append(script, "edit in.txt A -> B")
+		if !expect(build("//:top"), "//:mid", "//:top") {
+			return
+		}
+		os.WriteFile(in, []byte("A\n"), 0o644)
+		script = append(script, "edit in.txt B -> A")
+		expect(build("//:top"), "//:mid", "//:top")
+	case "named/long-lived/revert-constant":
+		write("\"two\"")
+		script = append(script, "edit K one -> two")
+		if !expect(build("//:top"), "//:mid", "//:top") {
+			return
+		}
+		write("\"one\"")
+		script = append(script, "edit K two -> one")
+		expect(build("//:top"), "//:mid", "//:top")
+	}
+}
+
 func init() {
 	for _, which := range []string{"C01", "C02"} {
 		which := which
 		registerCase("hist-"+which, func(c *core.Ctx, id string) {
 			if strings.HasPrefix(id, "named/sibling-closures/") {
 				c01SiblingClosures(c, id)
+				return
+			}
+			if strings.HasPrefix(id, "named/long-lived/") {
+				c01LongLived(c, id)
 				return
 			}
 			if strings.HasPrefix(id, "named/") {
